@@ -432,17 +432,18 @@ static void bk_pivot_rule_case(int n, int k)
         }
     const Real alpha = sym::exact((1.0 + std::sqrt(17.0)) / 8.0);
     bool is_1x1 = s.permutate_mat(k, Real((1.0 + std::sqrt(17.0)) / 8.0));
-    // which diagonal entry now sits at (k,k) resp. (k+1,k+1)?
-    auto origin = [&](const Real& t) -> int {
-        std::vector<std::string> sy = sym::symbols_of(t);
-        if (sy.size() != 1 || !where.count(sy[0]) || where[sy[0]].first != where[sy[0]].second)
-            return -1;
-        return where[sy[0]].first;
+    // which rows did the call bring to the pivot position?  (the library's own record m_perm: r for a 1x1 pivot, -(.)-1 for a 2x2
+    // block; its consistency with what was really moved is checked right below, entry by entry)
+    auto same_entry = [](const Real& a, const Real& b) {
+        if (!a.is_sym() && !b.is_sym())
+            return a.value() == b.value();
+        return a.is_sym() && b.is_sym() && (a.id == b.id || Z3_get_ast_id(sym::ctx(), a.term()) == Z3_get_ast_id(sym::ctx(), b.term()));
     };
-    int pk = origin(s.coeff(k, k)), pk1 = (k + 1 < n) ? origin(s.coeff(k + 1, k + 1)) : -1;
+    int pk = is_1x1 ? (int) s.m_perm[k] : (int) (-s.m_perm[k] - 1);
+    int pk1 = (is_1x1 || k + 1 >= n) ? -1 : (int) (-s.m_perm[k + 1] - 1);
     sym::note("observed", std::string(is_1x1 ? "1x1" : "2x2") + " pivot rows " + std::to_string(pk) + (is_1x1 ? "" : "," + std::to_string(pk1)));
-    sym::expect("pivot position holds a diagonal entry of the reduced matrix", pk >= k && (is_1x1 || pk1 > k), "origin " + std::to_string(pk) + "," + std::to_string(pk1));
-    if (pk < 0 || (!is_1x1 && pk1 < 0))
+    sym::expect("pivot rows lie inside the reduced matrix", pk >= k && pk < n && (is_1x1 || (pk1 > k && pk1 < n)), "rows " + std::to_string(pk) + "," + std::to_string(pk1));
+    if (pk < k || pk >= n || (!is_1x1 && (pk1 <= k || pk1 >= n)))
         return;
     // the reduced matrix after the call is the symmetric permutation the rule prescribes (and nothing else moved)
     {
@@ -459,10 +460,7 @@ static void bk_pivot_rule_case(int n, int k)
         bool same = true;
         for (int j = k; j < n; j++)
             for (int i = j; i < n; i++)
-            {
-                std::vector<std::string> a = sym::symbols_of(s.coeff(i, j)), b = sym::symbols_of(M(perm[i], perm[j]));
-                same = same && a.size() == 1 && a == b;
-            }
+                same = same && same_entry(s.coeff(i, j), M(perm[i], perm[j]));
         sym::expect("reduced matrix after the call = P A P' for the pivot permutation", same, "entries moved inconsistently");
     }
     // reference rule
